@@ -1343,6 +1343,9 @@ package ion
 //@ ensures[C07,C15] err == nil ==> 0 <= ts[3] && ts[3] <= 23 && 0 <= ts[4] && ts[4] <= 59 && 0 <= ts[5] && ts[5] <= 59
 //@ ensures[C07,C15] err == nil && precision > TimestampPrecisionDay ==> -1440 < offset && offset < 1440
 //@ ensures[C03,C15] specDateRoundTrips(ts, nsecs) && (precision <= TimestampPrecisionDay || (-1440 < offset && offset < 1440)) ==> err == nil
+//@ ensures[C01,C15] err == nil && precision > TimestampPrecisionDay && offset == 0 ==> (result.kind == TimezoneUnspecified) == (sign == -1) && (result.kind == TimezoneUTC) == (sign != -1)
+//@ ensures[C01,C15] err == nil && precision > TimestampPrecisionDay && offset != 0 ==> result.kind == TimezoneLocal
+//@ ensures[C01,C15] err == nil && precision > TimestampPrecisionDay ==> result.precision == precision
 //@ safe[C06]
 
 // Text timestamps: an offset of 24 hours or more, or 60 minutes or more, is rejected (C15).
